@@ -24,10 +24,10 @@ VARLIB_BUILDS = [
     ("SparseMasters", "SparseMasters-"),
 ]
 
-KINDS = ["recompile", "ttx", "ttx", "fea", "feagen", "feagen", "subset", "subset", "instance", "instance", "build", "merge", "scale", "reorder"]
+KINDS = ["recompile", "ttx", "ttx", "fea", "feagen", "feagen", "subset", "subset", "instance", "instance", "build", "merge", "scale", "reorder", "cffconv", "cffopt", "woff2rt", "ttxm", "otlopt", "mutator", "featvars"]
 
 
-BUILD_KINDS = ["fea", "fea", "feagen", "feagen", "feagen", "subset", "subset", "build", "merge", "instance", "instance"]
+BUILD_KINDS = ["fea", "fea", "feagen", "feagen", "feagen", "subset", "subset", "build", "merge", "instance", "instance", "cffconv", "cffopt", "otlopt", "mutator", "featvars", "featvars"]
 
 
 def generate(ctx, r, idx, build_only=False):
@@ -53,6 +53,17 @@ def generate(ctx, r, idx, build_only=False):
                     break
             else:
                 h["input"] = r.choice(bins)
+    if kind in ("cffconv", "cffopt", "otlopt", "woff2rt", "ttxm"):
+        bt = corpus.keys_by_tag()
+        want = {"cffconv": r.choice(["CFF ", "CFF ", "CFF2"]), "cffopt": "CFF ", "otlopt": "GPOS", "woff2rt": r.choice(["glyf", "glyf", "CFF "]), "ttxm": r.choice(sorted(bt) or ["glyf"])}[kind]
+        if bt.get(want):
+            k = r.choice(bt[want])
+            h["input"] = k[4:] if k.startswith("bin:") else k
+        else:
+            h["input"] = r.choice(bins)
+        h["want"] = want
+    if kind in ("mutator", "featvars"):
+        h["input"] = r.choice(_variable_fonts())
     if kind == "subset":
         h["recalc_bounds"] = r.random() < 0.5
     if kind == "feagen":
@@ -307,6 +318,102 @@ def run_pipe(h, scratch):
             paths.append(p)
         m = Merger()
         f = m.merge(paths)
+        return _save(f)
+    if kind == "cffconv":
+        f = TTFont(io.BytesIO(_raw(h["input"])), recalcTimestamp=False)
+        if "CFF " in f:
+            from fontTools.cffLib.CFFToCFF2 import convertCFFToCFF2
+
+            convertCFFToCFF2(f)
+        elif "CFF2" in f:
+            from fontTools.cffLib.CFF2ToCFF import convertCFF2ToCFF
+
+            if "fvar" in f:
+                from fontTools.varLib import instancer
+
+                f = instancer.instantiateVariableFont(f, {a.axisTag: a.defaultValue for a in f["fvar"].axes})
+            convertCFF2ToCFF(f)
+        return _save(f)
+    if kind == "cffopt":
+        f = TTFont(io.BytesIO(_raw(h["input"])), recalcTimestamp=False)
+        cff = f["CFF "].cff
+        for step in [x for x in ("desubroutinize", "remove_hints", "remove_unused_subroutines") if r.random() < 0.6] or ["desubroutinize"]:
+            getattr(cff, step)()
+        if r.random() < 0.5:
+            from fontTools.cffLib.width import optimizeWidths
+
+            td = cff[cff.fontNames[0]]
+            if hasattr(td, "Private") and not hasattr(td, "FDArray"):
+                cs = td.CharStrings
+                widths = []
+                for g in sorted(cs.keys()):
+                    c = cs[g]
+                    c.decompile()
+                    widths.append(getattr(c, "width", td.Private.defaultWidthX))
+                optimizeWidths(widths)
+        return _save(f)
+    if kind == "woff2rt":
+        from fontTools.ttLib import woff2
+
+        src = os.path.join(scratch, "in" + _ext(h["input"]))
+        with open(src, "wb") as fo:
+            fo.write(_raw(h["input"]))
+        w = os.path.join(scratch, "o.woff2")
+        woff2.compress(src, w)
+        back = os.path.join(scratch, "back.bin")
+        woff2.decompress(w, back)
+        with open(w, "rb") as f1, open(back, "rb") as f2:
+            return f1.read() + f2.read()
+    if kind == "ttxm":
+        from fontTools import ttx
+
+        src = os.path.join(scratch, "in" + _ext(h["input"]))
+        with open(src, "wb") as fo:
+            fo.write(_raw(h["input"]))
+        probe = TTFont(src, lazy=True)
+        tags = [t for t in probe.keys() if t not in ("GlyphOrder", "loca", "Gloc", "CBLC", "EBLC", "bloc")]
+        pick = sorted(set(r.choice(tags) for _ in range(r.randint(1, 4))))
+        x = os.path.join(scratch, "part.ttx")
+        ttx.main(["-q", "-o", x] + [a for t in pick for a in ("-t", t)] + [src])
+        o = os.path.join(scratch, "merged.bin")
+        ttx.main(["-q", "--no-recalc-timestamp", "-m", src, "-o", o, x])
+        with open(o, "rb") as f:
+            return f.read()
+    if kind == "otlopt":
+        from fontTools.otlLib.optimize import compact
+
+        f = TTFont(io.BytesIO(_raw(h["input"])), recalcTimestamp=False)
+        if "GPOS" in f:
+            compact(f, r.choice([1, 2, 5, 9]))
+        return _save(f)
+    if kind == "mutator":
+        from fontTools.varLib import mutator
+
+        f = TTFont(io.BytesIO(corpus.raw(h["input"])), recalcTimestamp=False)
+        loc = {a.axisTag: r.choice([a.minValue, a.defaultValue, a.maxValue, (a.minValue + a.maxValue) / 2]) for a in f["fvar"].axes}
+        g = mutator.instantiateVariableFont(f, loc, inplace=True, overlap=r.random() < 0.5)
+        return _save(g)
+    if kind == "featvars":
+        from fontTools.varLib.featureVars import addFeatureVariations
+
+        f = TTFont(io.BytesIO(corpus.raw(h["input"])), recalcTimestamp=False)
+        go = f.getGlyphOrder()
+        axes = [a.axisTag for a in f["fvar"].axes]
+        rules = []
+        for _ in range(r.randint(1, 5)):
+            boxes = []
+            for _ in range(r.randint(1, 3)):
+                box = {}
+                for t in r.sample(axes, r.randint(1, len(axes))):
+                    lo = r.choice([-1.0, -0.5, 0.0, 0.25, 0.5])
+                    box[t] = (lo, r.choice([x for x in (0.0, 0.25, 0.5, 0.75, 1.0) if x >= lo]))
+                boxes.append(box)
+            subs = {}
+            for _ in range(r.randint(1, 4)):
+                a_, b_ = r.choice(go), r.choice(go)
+                subs[a_] = b_
+            rules.append((boxes, subs))
+        addFeatureVariations(f, rules, featureTag=r.choice(["rvrn", "rclt", "rvrn"]))
         return _save(f)
     if kind == "scale":
         from fontTools.ttLib.scaleUpem import scale_upem
